@@ -871,9 +871,10 @@ def pull_encrypted_extensions(buf: Buffer) -> EncryptedExtensions:
             extension_length = buf.pull_uint16()
             extension_end = buf.tell() + extension_length
             if extension_type == ExtensionType.ALPN:
-                extensions.alpn_protocol = pull_list(
-                    buf, 2, partial(pull_alpn_protocol, buf)
-                )[0]
+                alpn_protocols = pull_list(buf, 2, partial(pull_alpn_protocol, buf))
+                if not alpn_protocols:
+                    raise AlertDecodeError("ALPN extension has no usable protocol")
+                extensions.alpn_protocol = alpn_protocols[0]
             elif extension_type == ExtensionType.EARLY_DATA:
                 extensions.early_data = True
             else:
